@@ -169,6 +169,8 @@ func (f *Frame) instr(ins ssa.Instruction, st *State) bool {
 		f.vals[x] = res
 		if sc := x.Call.StaticCallee(); sc != nil {
 			f.runGhostHooks("call:"+sc.String(), map[string]Val{"result": res}, st)
+		} else if x.Call.IsInvoke() {
+			f.runGhostHooks("call:("+types.TypeString(x.Call.Value.Type(), nil)+")."+x.Call.Method.Name(), map[string]Val{"result": res}, st)
 		} else if pv, ok := x.Call.Value.(*ssa.Parameter); ok {
 			extra := map[string]Val{"result": res}
 			for i, a := range x.Call.Args {
